@@ -290,16 +290,35 @@ def c17_run(case):
     if case['kind'] == 'c17-edit':
         s, jobs = build(n, edges)
         cur = set(edges)
+        err = c17_queries(s, jobs, n, cur, set(), rng, False)
+        if err:
+            return 'before edits: ' + err
         for _ in range(4):
-            a, b = rng.randrange(n), rng.randrange(n)
-            if a == b:
-                continue
-            if (a, b) in cur:
-                jobs[a].requires(jobs[b], remove=True)
-                cur.discard((a, b))
-            elif is_acyclic(n, cur | {(a, b)}):
-                jobs[a].requires(jobs[b])
-                cur.add((a, b))
+            # one to three primitive edits between two rounds of queries; "retarget" keeps the
+            # number of requirements of a job and the member set unchanged
+            for _e in range(rng.randint(1, 3)):
+                kind = rng.choice(['toggle', 'retarget', 'retarget'])
+                a, b = rng.randrange(n), rng.randrange(n)
+                if kind == 'retarget':
+                    outs = [e for e in cur if e[0] == a]
+                    if not outs:
+                        continue
+                    old = rng.choice(outs)
+                    if a == b or (a, b) in cur or not is_acyclic(n, (cur - {old}) | {(a, b)}):
+                        continue
+                    jobs[a].requires(jobs[old[1]], remove=True)
+                    jobs[a].requires(jobs[b])
+                    cur.discard(old)
+                    cur.add((a, b))
+                    continue
+                if a == b:
+                    continue
+                if (a, b) in cur:
+                    jobs[a].requires(jobs[b], remove=True)
+                    cur.discard((a, b))
+                elif is_acyclic(n, cur | {(a, b)}):
+                    jobs[a].requires(jobs[b])
+                    cur.add((a, b))
             err = c17_queries(s, jobs, n, cur, set(), rng, False)
             if err:
                 return 'after edits: ' + err
@@ -309,16 +328,88 @@ def c17_run(case):
     return c17_queries(s, jobs, n, edges, forever, rng, n <= 4)
 
 
+# ----------------------------------------------------------------------------- C16
+def c16_cases(tier, rng):
+    k = 1500 if tier == 'quick' else 30000
+    for i in range(k):
+        yield {'kind': 'c16-tree', 'seed': rng.randrange(1 << 30), 'dirty': i % 4 != 0}
+
+
+def c16_build(rng, dirty):
+    """random tree (depth <= 3); requirement edges between arbitrary pairs of objects of the tree
+    plus outsiders when dirty, only within one scheduler otherwise"""
+    scheds = []
+
+    def mk(depth):
+        n = rng.randint(0, 3)
+        members = []
+        for _ in range(n):
+            if depth < 3 and rng.random() < 0.35:
+                members.append(mk(depth + 1))
+            else:
+                members.append(J('a%d' % rng.randrange(10 ** 6)))
+        s = Scheduler(*members)
+        scheds.append(s)
+        return s
+    top = mk(0)
+    if rng.random() < 0.3:
+        pure = PureScheduler(*list(top.jobs))
+        scheds[-1] = pure
+        top = pure
+    everything = [j for s in scheds for j in s.jobs]
+    outsiders = [J('out%d' % i) for i in range(2)] + [Scheduler(J('deep'))]
+    for s in scheds:
+        mem = list(s.jobs)
+        for a in mem:
+            for b in mem:
+                if a is not b and rng.random() < 0.3:
+                    a.requires(b)
+    if dirty:
+        pool = everything + outsiders + [top]
+        for _ in range(rng.randint(1, 4)):
+            if not everything:
+                break
+            a = rng.choice(everything)
+            b = rng.choice(pool)
+            if a is not b:
+                a.requires(b)
+    return top, scheds
+
+
+def c16_run(case):
+    rng = random.Random(case['seed'])
+    top, scheds = c16_build(rng, case['dirty'])
+    before = {id(j): set(j.required) for s in scheds for j in s.jobs}
+    need_removal = any(r not in s.jobs for s in scheds for j in s.jobs for r in j.required)
+    res, _ = quiet(top.sanitize)
+    for s in scheds:
+        for j in s.jobs:
+            for r in j.required:
+                if r not in s.jobs:
+                    return 'after sanitize a requirement is not a member of the same scheduler'
+            for r in before[id(j)]:
+                if r in s.jobs and r not in j.required:
+                    return 'sanitize removed a requirement between two members of one scheduler'
+    if res is not (not need_removal):
+        return 'sanitize() returned %r but removals needed = %r' % (res, need_removal)
+    res2, _ = quiet(top.sanitize)
+    if res2 is not True:
+        return 'second sanitize() returned %r' % (res2,)
+    return None
+
+
 PROPS = {
     'C15': (c15_cases, c15_run, 'all loop-free digraphs up to 4 (quick) / sampled 5 (thorough) nodes at three '
             'placements, random digraphs on 5-8 nodes, add/remove mutation sequences; non-trivial = at least one edge'),
+    'C16': (c16_cases, c16_run, 'random scheduler trees of depth <= 3 with requirement edges inside schedulers, and (3 in 4) '
+            'edges to outsiders, siblings, parents, children, nested schedulers; non-trivial = every case (seeded tree)'),
     'C17': (c17_cases, c17_run, 'all DAGs up to 4 nodes with all start sets of size <= 2, random DAGs up to 8/12 '
             'nodes with forever flags, random trees for iterate_jobs, edit sequences; non-trivial = at least one edge or nested scheduler'),
 }
 
 
 def nontrivial(case):
-    return bool(case.get('edges')) or case['kind'].endswith('tree') or case['kind'].endswith('op')
+    return bool(case.get('edges')) or case['kind'].endswith('tree') or case['kind'].endswith('op') or 'seed' in case
 
 
 def main(argv):
